@@ -573,3 +573,75 @@ func TestC12GenCorpus(t *testing.T) {
 	}
 	t.Logf("wrote %d seeds", n)
 }
+
+var (
+	c12RawOnce sync.Once
+	c12Raw     *dnsfx.RawServer
+)
+
+// TestC12Framing: the DoH response's framing is attacker-controlled too. The
+// declared Content-Length may exceed what a DNS message can be (or what
+// follows); consuming such a response stays bounded and never panics.
+func TestC12Framing(t *testing.T) {
+	rec := ev.Get("C12")
+	rapid.Check(t, func(t *rapid.T) {
+		c12RawOnce.Do(func() {
+			s, err := dnsfx.NewRawServer()
+			if err != nil {
+				panic(err)
+			}
+			c12Raw = s
+		})
+		c12Mu.Lock()
+		defer c12Mu.Unlock()
+		var body []byte
+		switch rapid.IntRange(0, 2).Draw(t, "body_kind") {
+		case 0:
+			body = svcParamMessage(t)
+		case 1:
+			body = dnsfx.GenMessage(t, "m").Bytes()
+		default:
+			body = hello.GenBytes(t, "junk", rapid.IntRange(0, 600).Draw(t, "junklen"))
+		}
+		declared := []int64{int64(len(body)), int64(len(body)) + 1, int64(len(body)) - 1, 0, 65535, 65536, 1 << 20, 1<<31 - 1, 1 << 31, 1<<32 + 5, 1 << 36}[uniform(t, "declared", 11)]
+		if declared < 0 {
+			declared = 0
+		}
+		c12Raw.Set(fmt.Sprintf("Content-Length: %d\r\n", declared), body)
+		r, err := ech.NewResolver(c12Raw.URL)
+		if err != nil {
+			t.Fatalf("harness: %v", err)
+		}
+		r.SetCacheSize(0)
+		rp := map[string]any{"declared_content_length": declared, "body": hx(body)}
+		var ms0, ms1 runtime.MemStats
+		var rerr error
+		watch("C12", rp, func() {
+			runtime.ReadMemStats(&ms0)
+			ctx, cancel := context.WithTimeout(context.Background(), 20*time.Second)
+			defer cancel()
+			rerr = guard(func() error {
+				res, e := r.Resolve(ctx, "example.com")
+				if e == nil {
+					for range res.Targets("tcp") {
+					}
+				}
+				return e
+			})
+			runtime.ReadMemStats(&ms1)
+		})
+		if isPanic(rerr) {
+			ev.Violation(t, "C12", rp, "Resolve panicked on a DoH response declaring Content-Length %d with a %d-byte body: %v", declared, len(body), rerr)
+		}
+		// one Resolve = a handful of DoH exchanges; a DNS message is at most 65535 bytes
+		if alloc := ms1.TotalAlloc - ms0.TotalAlloc; alloc > 16<<20 {
+			ev.Violation(t, "C12", rp, "Resolve allocated %d bytes while consuming a DoH response that declares Content-Length %d (body %d bytes)", alloc, declared, len(body))
+		}
+		if declared > 65535 && rerr == nil {
+			ev.Violation(t, "C12", rp, "Resolve accepted a DoH response declaring %d bytes (a DNS message is at most 65535)", declared)
+		}
+		rec.Case(fmt.Sprintf("framing|%d|%d", declared, len(body)), declared != int64(len(body)), []string{"doh_framing", fmt.Sprintf("declared_gt_64k:%v", declared > 65535)}, func() any {
+			return map[string]any{"kind": "doh_framing", "declared": declared, "body_len": len(body), "err": fmt.Sprint(rerr)}
+		})
+	})
+}
